@@ -322,3 +322,12 @@ def dur_text_round_trip(d, parser):
     assert q == d
     assert hash(q) == hash(d)
     assert str(q) == s
+
+
+def timepoint_text_round_trip(p, dumper, parser):
+    # C08: the REAL default dump format, the REAL dumper and the REAL parser composed
+    s = dumper.dump(p, p._get_dump_format())
+    q = parser.parse(s)
+    assert tp_same_fields(q, p)
+    assert q == p
+    assert dumper.dump(q, q._get_dump_format()) == s
